@@ -1009,6 +1009,11 @@ pub fn plan(property: &str, tier: &str) -> Vec<Job> {
                     (COp::Flush, COp::Compact, COp::Create),
                     (COp::ExpandHole, COp::Flush, COp::Create),
                     (COp::ExpandHole, COp::Compact, COp::GrowFile),
+                    // an operation that takes a region's metadata write lock, a flush that
+                    // reads every region's metadata under the regions lock, a queued regions writer
+                    (COp::Truncate, COp::Flush, COp::Create),
+                    (COp::Rename, COp::Flush, COp::Create),
+                    (COp::WriteFits, COp::Flush, COp::Rename),
                 ] {
                     jobs.push(job(vec![vec![a], vec![b], vec![c]], 1, true, 600));
                 }
